@@ -1,10 +1,22 @@
 From Coq Require Import ZArith List String Bool.
 From FV Require Import Base.Ser Base.Res C02.Model C02.ModelGlyf.
-From FV Require C02.ModelCmap.
+From FV Require C02.ModelCmap C02.ModelComponent.
 Import ListNotations.
 Open Scope string_scope.
 Definition cmap12_compile_t (hdr : Z * Z * Z * Z) (m : list (Z * Z)) : Res (list Z) :=
   let '(format, step, reserved, language) := hdr in ModelCmap.cmap12_compile format step reserved language m.
+Global Instance De_cargs : De ModelComponent.cargs :=
+  fun l => match l with
+           | k :: r => match de r with
+                       | Some ((a, b), r') => Some ((if (k =? 0)%Z then ModelComponent.XY a b else ModelComponent.Points a b), r')
+                       | None => None end
+           | [] => None end.
+Global Instance Ser_cargs : Ser ModelComponent.cargs :=
+  fun a => match a with ModelComponent.XY x y => 0%Z :: ser (x, y) | ModelComponent.Points f s => 1%Z :: ser (f, s) end.
+Global Instance De_component : De ModelComponent.component :=
+  fun l => match de l with Some ((((f, g), a), t), r) => Some (ModelComponent.mkComp f g a t, r) | None => None end.
+Global Instance Ser_component : Ser ModelComponent.component :=
+  fun c => ser (ModelComponent.cflags c, ModelComponent.cgid c, ModelComponent.args c, ModelComponent.transform c).
 Definition reg : registry := [
   ("loca_compile", run1 loca_compile);
   ("loca_decompile", run2 loca_decompile);
@@ -13,6 +25,8 @@ Definition reg : registry := [
   ("compileDeltasGreedy", run1 compileDeltasGreedy);
   ("decompileCoordinates", run2 decompileCoordinates);
   ("cmap12_compile", run2 cmap12_compile_t);
-  ("cmap12_decompile", run2 ModelCmap.cmap12_decompile)
+  ("cmap12_decompile", run2 ModelCmap.cmap12_decompile);
+  ("component_compile", run3 ModelComponent.compile);
+  ("component_decompile", run1 ModelComponent.decompile)
 ].
 Definition fv_entry := dispatch reg.
